@@ -286,15 +286,24 @@ func (g *generator) walkEnum(schema *openapi3.Schema) (ast.Type, error) {
 		return ast.Type{}, fmt.Errorf("enum with no values")
 	}
 
+	if len(schema.Type.Slice()) == 0 {
+		// `enum` without `type` (cog's own OpenAPI output describes enums that way):
+		// the type is the one of the values, as for JSON Schema inputs.
+		inferredType := inferEnumType(schema.Enum)
+		if inferredType == "" {
+			return ast.Type{}, fmt.Errorf("enum without a type")
+		}
+
+		typedSchema := *schema
+		typedSchema.Type = &openapi3.Types{inferredType}
+		schema = &typedSchema
+	}
+
 	// Nullable enums? https://swagger.io/docs/specification/data-models/enums/
 	enums := make([]ast.EnumValue, 0, len(schema.Enum))
 	format := "%#v"
 	if schema.Type.Is(openapi3.TypeString) {
 		format = "%s"
-	}
-
-	if len(schema.Type.Slice()) == 0 {
-		return ast.Type{}, fmt.Errorf("enum without a type")
 	}
 
 	enumType, err := getEnumType(schema.Type.Slice()[0])
